@@ -763,7 +763,9 @@ def main_check(modname: str, argv: List[str]) -> int:
             print(f"{out.violation['clause']}: {core.short(out.violation['message'], 600)}")
             print(f"VIOLATION property={prop} replay={path}")
             reported += 1
-        if reported and rc == 0:
+        if reported:
+            # a violation that reproduced exactly from a fresh process stands, even if another candidate
+            # of the same batch could not be reproduced (that one was only reported on stderr)
             rc = 1
 
     wall = time.time() - t0
